@@ -2,8 +2,7 @@
   C11 — decidable checker evaluated by the driver on the IMPLEMENTATION's observations.
 
   The reference is the store machine of `Model/MdStore.lean` under `Policy.ideal` (certificate
-  configured => only a document whose signature verifies is accepted; an MDQ answer is stored only
-  after it has been verified).  What that machine serves is characterised, against the documents
+  configured => only a document whose signature verifies is accepted).  What that machine serves is characterised, against the documents
   themselves, by the theorems of `Props/C11.lean` (soundness, completeness, filters, first source
   wins, authenticity, failed loads / refreshes).  The checker compares observation by observation,
   and only as far as the property speaks:
@@ -64,8 +63,8 @@ def specRun (c : Consts α) (h : List (Step α)) (obs : List (Ans α)) : Bool :=
   specRunWith Policy.ideal c h obs
 
 /-! The explicit side condition under which the pinned code meets the specification: the history
-    never presents an unsigned document to a source with a certificate (F9) and never answers an
-    MDQ source that has a certificate with a document whose signature does not verify (F11). -/
+    never presents an unsigned document to a source with a certificate — at load time or as an MDQ
+    answer (F9). -/
 
 def specClean (sp : SrcSpec α) : Bool :=
   match sp.fetch with
@@ -75,7 +74,7 @@ def specClean (sp : SrcSpec α) : Bool :=
 def respClean (st : Store α) (r : MdqResp α) : Bool :=
   match r.fetch with
   | .doc d =>
-    !(st.any (fun s => decide (s.kind = .mdq) && s.cert && decide (s.key = r.src))) || decide (d.sig = .valid)
+    !(st.any (fun s => decide (s.kind = .mdq) && s.cert && decide (s.key = r.src))) || !decide (d.sig = .unsigned)
   | _ => true
 
 def cleanStep (st : Store α) (s : Step α) : Bool :=
